@@ -33,6 +33,28 @@ func init() {
 	reg("(time.Time).Local", func(ex *Exec, fn *ssa.Function, args []Value, site string) Value { return args[0] })
 	reg("(time.Time).Unix", func(ex *Exec, fn *ssa.Function, args []Value, site string) Value { return args[0].(TimeVal).Sec })
 	reg("(time.Time).Nanosecond", func(ex *Exec, fn *ssa.Function, args []Value, site string) Value { return args[0].(TimeVal).Nsec })
+	// Sub: the duration in nanoseconds (the saturation at +-292 years is outside the value ranges harnesses use)
+	reg("(time.Time).Sub", func(ex *Exec, fn *ssa.Function, args []Value, site string) Value {
+		a, b := args[0].(TimeVal), args[1].(TimeVal)
+		ds := mkArith("-", intTerm(a.Sec), intTerm(b.Sec))
+		dn := mkArith("-", intTerm(a.Nsec), intTerm(b.Nsec))
+		return lower(mkArith("+", mkArith("*", ds, mkInt(1000000000)), dn))
+	})
+	reg("(time.Duration).Abs", func(ex *Exec, fn *ssa.Function, args []Value, site string) Value {
+		d := intTerm(args[0])
+		if ex.decideBool(mkIntCmp("<", d, mkInt(0))) {
+			return lower(mkArith("-", mkInt(0), d))
+		}
+		return lower(d)
+	})
+	reg("(time.Time).Before", func(ex *Exec, fn *ssa.Function, args []Value, site string) Value {
+		a, b := args[0].(TimeVal), args[1].(TimeVal)
+		return lower(mkOr(mkIntCmp("<", intTerm(a.Sec), intTerm(b.Sec)), mkAnd(mkEq(intTerm(a.Sec), intTerm(b.Sec)), mkIntCmp("<", intTerm(a.Nsec), intTerm(b.Nsec)))))
+	})
+	reg("(time.Time).After", func(ex *Exec, fn *ssa.Function, args []Value, site string) Value {
+		a, b := args[1].(TimeVal), args[0].(TimeVal)
+		return lower(mkOr(mkIntCmp("<", intTerm(a.Sec), intTerm(b.Sec)), mkAnd(mkEq(intTerm(a.Sec), intTerm(b.Sec)), mkIntCmp("<", intTerm(a.Nsec), intTerm(b.Nsec)))))
+	})
 	reg("(time.Time).IsZero", func(ex *Exec, fn *ssa.Function, args []Value, site string) Value {
 		t := args[0].(TimeVal)
 		return lower(mkAnd(mkEq(intTerm(t.Sec), mkInt(-62135596800)), mkEq(intTerm(t.Nsec), mkInt(0))))
